@@ -26,6 +26,11 @@ RULE = ('random programs as for C01 whose bodies also contain ! at the top level
         'otherwise only its own consumers must agree with each other), leave no variable bound and the recursion limit unchanged.')
 TRUSTED_BASE = []
 
+def source_ties():
+    """source-level tie of compile_body / has_local_cut / localize_cuts (notes/TIE.md)"""
+    from lib import srctie
+    return srctie.check(ID)
+
 N_LONG = {'quick': 60, 'thorough': 450}
 N_REC = {'quick': 50, 'thorough': 400}
 N_LIMIT = {'quick': 50, 'thorough': 400}
